@@ -273,14 +273,20 @@ def enc_stmt(lines, i, c):
         m1 = at(1, r"self\.(?P<m>%s)\.encode\(buffer\)" % ID)
         m2 = at(2, r"(?P<v>%s)_end = buffer\.write_index" % ID)
         m3 = at(3, r"self\.(?P<l>%s) = (?P<a>%s)_end - (?P<b>%s)_start" % (ID, ID, ID))
-        m4 = at(4, r"buffer\.write_(?P<t>\w*?)_at\((?P<p>%s)_pos, self\.(?P<l>%s)\)" % (ID, ID))
-        if m1 and m2 and m3 and m4 and m2["v"] == v and m3["a"] == v and m3["b"] == v and m3["l"] == m4["l"] \
-                and meth(m4["t"], True):
-            w, le = meth(m4["t"], True)
+        if m1 and m2 and m3 and m2["v"] == v and m3["a"] == v and m3["b"] == v:
             k = c.idx(m1["m"])
-            mark = c.idx(m4["p"]) if m4["p"] in c.defined else UNDEF
-            # no cast in Python: cast_w = the width of the write; no slice
-            return 5, [(k, ("ESpan", c.codec_call(m1["m"]), k)), (k, ("EPatch", mark, k, w, le, w, None))]
+            if not hasattr(c, "spans"):
+                c.spans = {}
+            c.spans[m3["l"]] = k             # the member the span's size is stored in
+            return 4, [(k, ("ESpan", c.codec_call(m1["m"]), k))]
+    # the back-patch (normally right after the span; a separate statement)
+    m4 = re.fullmatch(r"buffer\.write_(?P<t>\w*?)_at\((?P<p>%s)_pos, self\.(?P<l>%s)\)" % (ID, ID), t)
+    if m4 and meth(m4["t"], True):
+        w, le = meth(m4["t"], True)
+        sid = getattr(c, "spans", {}).get(m4["l"], UNDEF)
+        mark = c.idx(m4["p"]) if m4["p"] in c.defined else UNDEF
+        # no cast in Python: cast_w = the width of the write; no slice
+        return 1, [(sid, ("EPatch", mark, sid, w, le, w, None))]
     # list loop
     m = re.fullmatch(r"size = len\(self\.(?P<m>%s)\)" % ID, t)
     if m:
